@@ -4,9 +4,9 @@ func init() {
 	addProperty(&Property{
 		ID:         "C18",
 		Title:      "Every enumerated keyword maps back to the value that printed it",
-		Decided:    "for all declared values of all enum types (exhaustive): String table defines a keyword, FromString maps it back to the same value, keywords are injective (ENUM-TAB); the keyword is a terminal the llir/ll lexer can produce (ENUM-LEX); flag-set printers enumerate exactly the single-bit members between First and Last (ENUM-FLAGS); each FromString is applied to the matching AST keyword node (ENUM-USE); flag-set printers test the empty set first, on the unmodified set (ENUM-FLAGS); no function that converts between keywords and enum values keeps process-level state such as a shared keyword cache (DET-2 restricted to functions with an enum type in their signature); hand-written keyword tables agree with the generated ones (ENUM-HAND); an enum-valued debug-info field is omitted from the text only at its zero value (MD-OMIT, enum fields), and so is every enum-valued field of a global, function, call or memory instruction: its guard holds for every declared non-zero member (ENUM-OMIT).",
+		Decided:    "for all declared values of all enum types (exhaustive): String table defines a keyword, FromString maps it back to the same value, keywords are injective (ENUM-TAB); the keyword is a terminal the llir/ll lexer can produce (ENUM-LEX); flag-set printers enumerate exactly the single-bit members between First and Last (ENUM-FLAGS); each FromString is applied to the matching AST keyword node (ENUM-USE); flag-set printers test the empty set first, on the unmodified set (ENUM-FLAGS); no function that converts between keywords and enum values keeps process-level state such as a shared keyword cache (DET-2 restricted to functions with an enum type in their signature); hand-written keyword tables agree with the generated ones (ENUM-HAND); an enum-valued debug-info field is omitted from the text only at its zero value (MD-OMIT, enum fields), and so is every enum-valued field of a global, function, call or memory instruction: its guard holds for every declared non-zero member (ENUM-OMIT); the translators of flag keyword lists (fast-math, overflow) store one flag per keyword (LIST-1TO1 restricted to them).",
 		NotDecided: "all subsets of the flag types beyond the structure of the set printers; acceptance of each keyword by LLVM itself.",
-		Rules:      []RuleUse{{Rule: "ENUM-TAB"}, {Rule: "ENUM-LEX"}, {Rule: "ENUM-FLAGS"}, {Rule: "ENUM-USE"}, {Rule: "DET-2", Filter: tag("enum"), Floor: 1}, {Rule: "ENUM-HAND", Filter: notTag("types"), Floor: 1}, {Rule: "MD-OMIT", Filter: tag("enum"), Floor: 10}, {Rule: "ENUM-OMIT"}},
+		Rules:      []RuleUse{{Rule: "ENUM-TAB"}, {Rule: "ENUM-LEX"}, {Rule: "ENUM-FLAGS"}, {Rule: "ENUM-USE"}, {Rule: "DET-2", Filter: tag("enum"), Floor: 1}, {Rule: "ENUM-HAND", Filter: notTag("types"), Floor: 1}, {Rule: "MD-OMIT", Filter: tag("enum"), Floor: 10}, {Rule: "ENUM-OMIT"}, {Rule: "LIST-1TO1", Filter: keyHas("Flags"), Floor: 1}},
 	})
 	addProperty(&Property{
 		ID:         "C19",
@@ -18,9 +18,9 @@ func init() {
 	addProperty(&Property{
 		ID:         "C01",
 		Title:      "Parse then print preserves the meaning of every accepted module",
-		Decided:    "over every construct of the translator and printers: each grammar alternative is dispatched or rejected with an error, never a panic or silent skip (EXH, SIB); scaffold and fill translators agree on the IR type per AST node (PAIR); every syntax accessor of every handled AST node is read and used (ACC) and lands in the like-named IR field (FLOW); every IR field the parser allocates is filled (FLD-W) and every IR field is read by its printer (FLD-P), in grammar order (ORD), under the right opcode keyword (OPC); errors of the translator's own functions are returned, never dropped or turned into panics (ERR), and never accompanied by a module (NILMOD); no success return of a translator precedes an unconditional store to a field of the object being filled (EARLY-RET); a name the printer omits as default is the default the translator substitutes (ELIDE); a debug-info field is omitted only at the zero value the translator leaves for an absent field (MD-OMIT); the result type attached to a parsed getelementptr considers every index and keeps the address space (GEP-RES, GEP-VLEN); literal constants are built only by the literal readers (LIT-CTOR); quoted digit strings are names (ENC-CLASS); the result type the translator attaches to an instruction is the one the library computes for it, so uses print with the type the definition has (TYP-AGREE); enum-valued fields are omitted only at the value the translator substitutes (ENUM-OMIT); sibling alternatives of a scaffold dispatcher apply the same setters (SIB-SET); no field translator depends on the order of `key: value` fields in the input (FLD-LOOP); every spelling the literal printers emit is read back by the literal readers with the same value (LIT-INT-TAB, LIT-FP-TAB).",
+		Decided:    "over every construct of the translator and printers: each grammar alternative is dispatched or rejected with an error, never a panic or silent skip (EXH, SIB); scaffold and fill translators agree on the IR type per AST node (PAIR); every syntax accessor of every handled AST node is read and used (ACC) and lands in the like-named IR field (FLOW); every IR field the parser allocates is filled (FLD-W) and every IR field is read by its printer (FLD-P), in grammar order (ORD), under the right opcode keyword (OPC); errors of the translator's own functions are returned, never dropped or turned into panics (ERR), and never accompanied by a module (NILMOD); no success return of a translator precedes an unconditional store to a field of the object being filled (EARLY-RET); a name the printer omits as default is the default the translator substitutes (ELIDE); a debug-info field is omitted only at the zero value the translator leaves for an absent field (MD-OMIT); the result type attached to a parsed getelementptr considers every index and keeps the address space (GEP-RES, GEP-VLEN); literal constants are built only by the literal readers (LIT-CTOR); quoted digit strings are names (ENC-CLASS); the result type the translator attaches to an instruction is the one the library computes for it, so uses print with the type the definition has (TYP-AGREE); enum-valued fields are omitted only at the value the translator substitutes (ENUM-OMIT); sibling alternatives of a scaffold dispatcher apply the same setters (SIB-SET); no field translator depends on the order of `key: value` fields in the input (FLD-LOOP); every spelling the literal printers emit is read back by the literal readers with the same value (LIT-INT-TAB, LIT-FP-TAB); a loop that translates a list of AST nodes stores one element per element, so nothing is skipped, merged or de-duplicated away (LIST-1TO1; duplicates of set-valued lists dropped through an exact membership map are exempt).",
 		NotDecided: "that the printed text means the same to LLVM at the level of values (literal formatting is C09/C10/C11); crashes guarded by data conditions.",
-		Rules:      []RuleUse{{Rule: "EXH"}, {Rule: "SIB"}, {Rule: "PAIR"}, {Rule: "ACC"}, {Rule: "FLOW"}, {Rule: "FLD-W"}, {Rule: "FLD-P"}, {Rule: "ORD"}, {Rule: "OPC"}, {Rule: "ERR"}, {Rule: "NILMOD"}, {Rule: "EARLY-RET"}, {Rule: "ELIDE"}, {Rule: "MD-OMIT"}, {Rule: "GEP-RES"}, {Rule: "GEP-VLEN"}, {Rule: "LIT-CTOR"}, {Rule: "ENC-CLASS"}, {Rule: "SCAF-NAME"}, {Rule: "TYP-AGREE"}, {Rule: "ENUM-OMIT"}, {Rule: "SIB-SET"}, {Rule: "FLD-LOOP"}, {Rule: "LIT-INT-TAB"}, {Rule: "LIT-FP-TAB"}},
+		Rules:      []RuleUse{{Rule: "EXH"}, {Rule: "SIB"}, {Rule: "PAIR"}, {Rule: "ACC"}, {Rule: "FLOW"}, {Rule: "FLD-W"}, {Rule: "FLD-P"}, {Rule: "ORD"}, {Rule: "OPC"}, {Rule: "ERR"}, {Rule: "NILMOD"}, {Rule: "EARLY-RET"}, {Rule: "ELIDE"}, {Rule: "MD-OMIT"}, {Rule: "GEP-RES"}, {Rule: "GEP-VLEN"}, {Rule: "LIT-CTOR"}, {Rule: "ENC-CLASS"}, {Rule: "SCAF-NAME"}, {Rule: "TYP-AGREE"}, {Rule: "ENUM-OMIT"}, {Rule: "SIB-SET"}, {Rule: "FLD-LOOP"}, {Rule: "LIT-INT-TAB"}, {Rule: "LIT-FP-TAB"}, {Rule: "LIST-1TO1"}},
 	})
 	addProperty(&Property{
 		ID:         "C03",
@@ -85,13 +85,13 @@ func init() {
 	addProperty(&Property{
 		ID:         "C17",
 		Title:      "Metadata IDs are unique and references share node identity",
-		Decided:    "all 29 node types print numbered nodes by ID and inline nodes in place (MD-IDENT); every node the parser allocates is either inline (ID -1) or gets its definition's ID (MD-INLINE); fill translators fill the scaffold object that references resolve to and allocate only for inline nodes (MD-SCAF, PAIR); !N references resolve through one checked lookup (LK-2) and duplicate !N definitions are rejected (DUP); named metadata is merged by append in textual order (MD-MERGE); the printer records every explicit ID before it hands out the first new one, assigns only unused IDs, to unassigned nodes, before writing (MD-ASSIGN; RACE-2 md-tagged: SetID only on nodes whose ID differs); per debug-info field: grammar key ↔ printed field ↔ translator agree (MD-KEY) and the dispatch/coverage rules hold on the metadata translators and printers (EXH, ACC, FLOW, FLD-W, FLD-P restricted to metadata). Sibling alternatives of the definition scaffold apply the same setters, so `distinct` is kept for every node kind (SIB-SET); no field loop reads a field that another `key: value` alternative of the same loop writes (FLD-LOOP).",
+		Decided:    "all 29 node types print numbered nodes by ID and inline nodes in place (MD-IDENT); every node the parser allocates is either inline (ID -1) or gets its definition's ID (MD-INLINE); fill translators fill the scaffold object that references resolve to and allocate only for inline nodes (MD-SCAF, PAIR); !N references resolve through one checked lookup (LK-2) and duplicate !N definitions are rejected (DUP); named metadata is merged by append in textual order (MD-MERGE); the printer records every explicit ID before it hands out the first new one, assigns only unused IDs, to unassigned nodes, before writing (MD-ASSIGN; RACE-2 md-tagged: SetID only on nodes whose ID differs); per debug-info field: grammar key ↔ printed field ↔ translator agree (MD-KEY) and the dispatch/coverage rules hold on the metadata translators and printers (EXH, ACC, FLOW, FLD-W, FLD-P restricted to metadata). Sibling alternatives of the definition scaffold apply the same setters, so `distinct` is kept for every node kind (SIB-SET); no field loop reads a field that another `key: value` alternative of the same loop writes (FLD-LOOP); lists of metadata nodes, fields and attachments are translated one element per element, so a node listed twice stays listed twice (LIST-1TO1, metadata).",
 		NotDecided: "the arithmetic of the ID counter (smallest unused numbers as such); identity through paths the rules do not model (nodes copied by value).",
 		Rules: []RuleUse{{Rule: "MD-IDENT"}, {Rule: "MD-INLINE"}, {Rule: "MD-SCAF"}, {Rule: "MD-KEY"}, {Rule: "MD-MERGE"}, {Rule: "MD-ASSIGN"},
 			{Rule: "PAIR", Filter: tag("md"), Floor: 25}, {Rule: "LK-2", Filter: tag("md"), Floor: 1}, {Rule: "DUP", Filter: tag("md"), Floor: 1},
 			{Rule: "EXH", Filter: tag("md"), Floor: 200}, {Rule: "ACC", Filter: tag("md"), Floor: 120}, {Rule: "FLOW", Filter: tag("md"), Floor: 150},
 			{Rule: "FLD-W", Filter: tag("md"), Floor: 200}, {Rule: "FLD-P", Filter: tag("md"), Floor: 200}, {Rule: "RACE-2", Filter: keyHas("MetadataIDs"), Floor: 1}, {Rule: "EARLY-RET", Filter: tag("md"), Floor: 2},
-			{Rule: "SIB-SET", Filter: tag("md"), Floor: 1}, {Rule: "FLD-LOOP", Filter: tag("md"), Floor: 15}},
+			{Rule: "SIB-SET", Filter: tag("md"), Floor: 1}, {Rule: "FLD-LOOP", Filter: tag("md"), Floor: 15}, {Rule: "LIST-1TO1", Filter: tag("md"), Floor: 4}},
 	})
 	addProperty(&Property{
 		ID:         "C04",
@@ -126,9 +126,9 @@ func init() {
 	addProperty(&Property{
 		ID:         "C11",
 		Title:      "Names and strings are escaped losslessly and unambiguously",
-		Decided:    "one numeric-name predicate at every site that decides ID vs name, in encoders, decoders and identifier constructors (ENC-NUM); no raw string field reaches a printer's output without an LLVM escaper (ENC-STR); no undecoded token text reaches the IR (ENC-TEXT); per token class the sigil written equals the sigil stripped, and every encoder is applied only to fields of its own class (ENC-PAIR); decoders return the denoted bytes without formatting quote characters into names (ENC-RAW); evaluated over all 256 byte values, every byte class that is copied verbatim between quotes excludes the quote and the backslash, and every hand-made quoting is applied to escaper output or under a guard whose accepted bytes are a subset of the escaper's verbatim set (ENC-SET); in Unescape only bytes of the source are ever examined as escape syntax, never a decoded byte (ENC-UNESC).",
+		Decided:    "one numeric-name predicate at every site that decides ID vs name, in encoders, decoders and identifier constructors (ENC-NUM); no raw string field reaches a printer's output without an LLVM escaper (ENC-STR); no undecoded token text reaches the IR (ENC-TEXT); per token class the sigil written equals the sigil stripped, and every encoder is applied only to fields of its own class (ENC-PAIR); decoders return the denoted bytes without formatting quote characters into names (ENC-RAW); evaluated over all 256 byte values, every byte class that is copied verbatim between quotes excludes the quote and the backslash, and every hand-made quoting is applied to escaper output or under a guard whose accepted bytes are a subset of the escaper's verbatim set (ENC-SET); in Unescape only bytes of the source are ever examined as escape syntax, never a decoded byte (ENC-UNESC). The encoder that chooses between the bare and the quoted spelling tests the first byte on its own and quotes a name with a leading digit (ENC-HEAD).",
 		NotDecided: "losslessness and injectivity of the escaping functions over all byte strings (Escape/Unescape are loops over runtime bytes; beyond the byte classes and the source-byte discipline no structural rule establishes that they are inverse); LLVM's own reading of the tokens.",
-		Rules:      []RuleUse{{Rule: "ENC-NUM"}, {Rule: "ENC-STR"}, {Rule: "ENC-TEXT"}, {Rule: "ENC-PAIR"}, {Rule: "ENC-RAW"}, {Rule: "ENC-SET"}, {Rule: "ENC-UNESC"}, {Rule: "ENC-CLASS"}},
+		Rules:      []RuleUse{{Rule: "ENC-NUM"}, {Rule: "ENC-STR"}, {Rule: "ENC-TEXT"}, {Rule: "ENC-PAIR"}, {Rule: "ENC-RAW"}, {Rule: "ENC-SET"}, {Rule: "ENC-UNESC"}, {Rule: "ENC-CLASS"}, {Rule: "ENC-HEAD"}},
 	})
 	addProperty(&Property{
 		ID:         "C09",
@@ -147,9 +147,9 @@ func init() {
 	addProperty(&Property{
 		ID:         "C02",
 		Title:      "Printed output is a fixpoint of parse and print",
-		Decided:    "only conditions necessary for idempotence itself (dropping a field is idempotent, so coverage rules are deliberately not attached): output cannot depend on map iteration order (DET-1); every keyword, literal spelling class and identifier spelling the printer can choose is read back into the same class/value table entry (ENUM-TAB, ENUM-LEX, LIT-INT-TAB, LIT-FP-TAB, ENC-NUM, ENC-PAIR, MD-KEY); the numbering the printer emits is the numbering the parser assigns on re-read (NUM-SHAPE, NUM-PREFIX, NUM-AUTH); every emitted list is already in the order a re-parse would put it in (ORD-SORT); a name the printer omits as default is exactly the default the translator substitutes (ELIDE); a merge that removes duplicates removes them across all merged definitions, so that merging its own output changes nothing (DEDUP-SCOPE); literal token text is decoded by the one reader the printer's spellings are matched against (LIT-READER). No field translator depends on the order of `key: value` fields, so the printer's canonical order is read like any other (FLD-LOOP); no two values of an enum-valued attribute share one spelling and none is omitted except at the value the reader substitutes (ENUM-OMIT).",
+		Decided:    "only conditions necessary for idempotence itself (dropping a field is idempotent, so coverage rules are deliberately not attached): output cannot depend on map iteration order (DET-1); every keyword, literal spelling class and identifier spelling the printer can choose is read back into the same class/value table entry (ENUM-TAB, ENUM-LEX, LIT-INT-TAB, LIT-FP-TAB, ENC-NUM, ENC-PAIR, MD-KEY); the numbering the printer emits is the numbering the parser assigns on re-read (NUM-SHAPE, NUM-PREFIX, NUM-AUTH); every emitted list is already in the order a re-parse would put it in (ORD-SORT); a name the printer omits as default is exactly the default the translator substitutes (ELIDE); a merge that removes duplicates removes them across all merged definitions, so that merging its own output changes nothing (DEDUP-SCOPE), and is keyed by the translated value, not by one of its source spellings (DEDUP-KEY); literal token text is decoded by the one reader the printer's spellings are matched against (LIT-READER). No field translator depends on the order of `key: value` fields, so the printer's canonical order is read like any other (FLD-LOOP); no two values of an enum-valued attribute share one spelling and none is omitted except at the value the reader substitutes (ENUM-OMIT).",
 		NotDecided: "byte equality of the two texts; structural identity of the two parsed modules; acceptance of the printed text by the generated LALR parser beyond keyword/terminal membership.",
 		Rules: []RuleUse{{Rule: "DET-1"}, {Rule: "ENUM-TAB"}, {Rule: "ENUM-LEX"}, {Rule: "LIT-INT-TAB"}, {Rule: "LIT-FP-TAB"}, {Rule: "ENC-NUM"}, {Rule: "ENC-PAIR"}, {Rule: "MD-KEY"},
-			{Rule: "NUM-SHAPE"}, {Rule: "NUM-PREFIX"}, {Rule: "NUM-AUTH"}, {Rule: "ORD-SORT"}, {Rule: "ELIDE"}, {Rule: "DEDUP-SCOPE"}, {Rule: "LIT-READER"}, {Rule: "NUM-ORDER"}, {Rule: "FLD-LOOP"}, {Rule: "ENUM-OMIT"}},
+			{Rule: "NUM-SHAPE"}, {Rule: "NUM-PREFIX"}, {Rule: "NUM-AUTH"}, {Rule: "ORD-SORT"}, {Rule: "ELIDE"}, {Rule: "DEDUP-SCOPE"}, {Rule: "LIT-READER"}, {Rule: "NUM-ORDER"}, {Rule: "FLD-LOOP"}, {Rule: "ENUM-OMIT"}, {Rule: "DEDUP-KEY"}},
 	})
 }
